@@ -269,7 +269,8 @@ def check_join_separators(ck, prog):
         if x[1] == 47 or (len(x) > 4 and tuple(x[4]) == (47,)):
             return True
         # `&&u8` promoted: the pointee of the pointer stored at offset 0 is the byte
-        return len(x) > 5 and any(off == 0 and str(x[3]).endswith("u8") and mem[:1] == (47,) for off, mem in x[5])
+        # ... or a promoted `Some(&b'/')` (an Option<&u8> is just that pointer)
+        return len(x) > 5 and any(off == 0 and (str(x[3]).endswith("u8") or str(x[3]).endswith("Option<&u8>")) and tuple(mem[:1]) == (47,) for off, mem in x[5])
     for nm in ("path_join", "path_join_fmt"):
         fn = prog.fns.get(M + "UnixStr::" + nm)
         if fn is None:
@@ -295,7 +296,7 @@ def check_join_separators(ck, prog):
                     if f[0] == "cmp" and f[1] in ("Eq", "Ne") and 47 in (fold(f[2]), fold(f[3])):
                         subj = f[3] if fold(f[2]) == 47 else f[2]
                         val = f[1] == "Eq"
-                    elif f[0] == "truth" and isinstance(f[1], tuple) and f[1][0] == "call" and (f[1][1] or "").endswith(("PartialEq::eq", "PartialEq::ne")) and any(is_slash(a) for a in f[1][2]):
+                    elif f[0] == "truth" and isinstance(f[1], tuple) and f[1][0] == "call" and (f[1][1] or "").endswith(("PartialEq::eq", "PartialEq::ne", "PartialEq>::eq", "PartialEq>::ne")) and any(is_slash(a) for a in f[1][2]):
                         subj = [a for a in f[1][2] if not is_slash(a)]
                         subj = subj[0] if subj else None
                         val = f[2] if f[1][1].endswith("::eq") else (not f[2])
